@@ -281,8 +281,12 @@ class SummaryActions(object):
     ]
     source_col_map = dict(zip(source_groupby_columns, groupby_columns))
     prev_group_columns = [source_col_map[f.colRef.summarySourceCol] for f in prev_group_fields]
-    visible_formula_columns = [c for c in formula_columns if c.colId in colid_to_field_map]
-    formula_fields = [colid_to_field_map[c.colId] for c in visible_formula_columns]
+    # A formula column is found by the colId it had in the original table: in the new table it may
+    # have had to get a different one (when a column with that colId but another formula exists).
+    visible_formula = [(c, ci) for (c, ci) in zip(formula_columns, formula_colinfo)
+                       if ci.colId in colid_to_field_map]
+    visible_formula_columns = [c for (c, ci) in visible_formula]
+    formula_fields = [colid_to_field_map[ci.colId] for (c, ci) in visible_formula]
     self.docmodel.update(formula_fields + prev_group_fields,
                          colRef=[c.id for c in visible_formula_columns + prev_group_columns])
 
